@@ -385,8 +385,8 @@ CLAIMED.update({
         text="Kernel-level partial claim on 'the lexer is total and reports faithful token positions': for single-line string literals (the scanner entered after the opening quote; "
              "k <= 3 characters quick, <= 5 thorough, every Unicode scalar value for each, then the end of the input) (a) no path panics - in particular not when the input ends "
              "inside an escape sequence - and (b) whenever a token is returned it starts at the opening quote's column and the lexer's column afterwards has advanced by exactly the "
-             "number of source characters consumed, whatever escape sequences the literal contains; (c) multi-line literals (entered after the three opening quotes) do not panic either. "
-             "All other token kinds, the columns and lines of multi-line literals, interpolated-continuation strings (lex_interpolation_mid), indentation, comments and the token iterator are not decided.",
+             "number of source characters consumed, whatever escape sequences the literal contains; (c) multi-line literals (entered after the three opening quotes) and the continuation of an interpolated literal (lex_interpolation_mid, inside a single-line or a "
+             "multi-line literal) do not panic either. All other token kinds, the columns and lines of multi-line and interpolated literals, indentation, comments and the token iterator are not decided.",
         note="Trusts rustc's MIR dump, engines/mirsem.py + mirflow.py, z3 and the std contract models listed in the evidence (Vec / slice / Option / Result / Range / String, "
              "is_ascii_hexdigit, from_str_radix on two checked hex digits, CacheSet::get returning the same text, Token::new as a record of its arguments). Error constructors are "
              "uninterpreted. The literal is on the first line at column 0 with SingleLine on the interpolation stack.",
